@@ -49,6 +49,20 @@ func acceptPostSameSource(c *core.Ctx) {
 				if f.Name() == "acceptPost" {
 					acceptVal = val
 				}
+				// the handlers indexed by Content-Type at construction: `index(list)` with an indexer that enters
+				// every key of every handler's ContentTypes() (first handler wins) stands for the list
+				if mt, ok := f.Type().Underlying().(*types.Map); ok && astx.NamedOf(mt.Elem()) != nil && astx.NamedOf(mt.Elem()).Obj().Name() == "protocolHandler" {
+					if ic, isCall := astx.Unparen(val).(*ast.CallExpr); isCall && len(ic.Args) == 1 {
+						if g := astx.CalleeFunc(info, ic); g != nil && p.Decl(g) != nil {
+							if src := contentTypeIndexer(p, info, p.Decl(g)); src != nil && len(p.Decl(g).Type.Params.List) == 1 && astx.ObjOf(info, src) == info.Defs[p.Decl(g).Type.Params.List[0].Names[0]] {
+								handlersVal = ic.Args[0]
+							}
+						}
+					} else if src := contentTypeIndexer(p, info, fd); src != nil {
+						// the indexer inlined into the constructor: the list it ranges over
+						handlersVal = src
+					}
+				}
 			}
 			if handlersVal == nil || acceptVal == nil {
 				c.Violation(key, lit.Pos(), "Handler literal does not set both the protocol handler list and acceptPost")
@@ -881,4 +895,97 @@ func procedureSameFn(c *core.Ctx) {
 		})
 		c.Check(ok, tn+".newSpec/procedure", fd.Pos(), "Spec.Procedure copies the config's Procedure unchanged")
 	}
+}
+
+// contentTypeIndexer returns the []protocolHandler expression fd builds its Content-Type index from (nil when
+// it builds none, or not in this way): it ranges over the handlers in order and, for each, over the keys of its ContentTypes(), storing the handler under the key
+// - unconditionally or only when the key is not taken yet - and nothing else is ever stored in the map.
+func contentTypeIndexer(p *core.Program, info *types.Info, fd *ast.FuncDecl) ast.Expr {
+	if fd == nil || fd.Body == nil {
+		return nil
+	}
+	var list ast.Expr
+	stores, good := 0, 0
+	ast.Inspect(fd.Body, func(x ast.Node) bool {
+		as, ok := x.(*ast.AssignStmt)
+		if !ok {
+			return true
+		}
+		for i, l := range as.Lhs {
+			ix, isIx := astx.Unparen(l).(*ast.IndexExpr)
+			if !isIx {
+				continue
+			}
+			if mt, isMap := info.TypeOf(ix.X).Underlying().(*types.Map); !isMap || astx.NamedOf(mt.Elem()) == nil || astx.NamedOf(mt.Elem()).Obj().Name() != "protocolHandler" {
+				continue
+			}
+			stores++
+			if i >= len(as.Rhs) {
+				continue
+			}
+			// key: the key variable of a range over <h>.ContentTypes(); value: h, the value variable of a range over the parameter
+			inner := enclosingRange(fd.Body, as)
+			if inner == nil || inner.Key == nil || astx.ObjOf(info, inner.Key) != astx.ObjOf(info, ix.Index) {
+				continue
+			}
+			call, isCall := astx.Unparen(inner.X).(*ast.CallExpr)
+			if !isCall || !isMethodNamed(info, call, "ContentTypes") {
+				continue
+			}
+			sel, isSel := call.Fun.(*ast.SelectorExpr)
+			if !isSel || astx.ObjOf(info, sel.X) == nil || astx.ObjOf(info, sel.X) != astx.ObjOf(info, as.Rhs[i]) {
+				continue
+			}
+			var outer *ast.RangeStmt
+			ast.Inspect(fd.Body, func(y ast.Node) bool {
+				if rs, ok := y.(*ast.RangeStmt); ok && rs != inner && astx.Contains(rs, inner) {
+					outer = rs
+				}
+				return true
+			})
+			if outer == nil || astx.ObjOf(info, outer.X) == nil || outer.Value == nil || astx.ObjOf(info, outer.Value) != astx.ObjOf(info, sel.X) {
+				continue
+			}
+			if sl, isSlice := info.TypeOf(outer.X).Underlying().(*types.Slice); !isSlice || astx.NamedOf(sl.Elem()) == nil || astx.NamedOf(sl.Elem()).Obj().Name() != "protocolHandler" {
+				continue
+			}
+			list = outer.X
+			// the only condition around the store may be "not taken yet"
+			okCond := true
+			ast.Inspect(inner.Body, func(y ast.Node) bool {
+				ifs, isIf := y.(*ast.IfStmt)
+				if !isIf || !astx.Contains(ifs, as) {
+					return true
+				}
+				if ifs.Else != nil {
+					okCond = false
+				}
+				init, hasInit := ifs.Init.(*ast.AssignStmt)
+				if !hasInit || len(init.Rhs) != 1 {
+					okCond = false
+					return true
+				}
+				if lx, isLx := astx.Unparen(init.Rhs[0]).(*ast.IndexExpr); !isLx || astx.ObjOf(info, lx.X) != astx.ObjOf(info, ix.X) || astx.ObjOf(info, lx.Index) != astx.ObjOf(info, ix.Index) {
+					okCond = false
+				}
+				return true
+			})
+			for _, st := range []ast.Node{inner.Body, outer.Body} {
+				ast.Inspect(st, func(y ast.Node) bool {
+					if b, isB := y.(*ast.BranchStmt); isB && (b.Tok == token.BREAK || b.Tok == token.CONTINUE || b.Tok == token.GOTO) {
+						okCond = false
+					}
+					return true
+				})
+			}
+			if okCond {
+				good++
+			}
+		}
+		return true
+	})
+	if stores == 1 && good == 1 {
+		return list
+	}
+	return nil
 }
